@@ -12,7 +12,6 @@ use crate::core::{Fail, Outcome, Pass, Prop, Src};
 use crate::e3;
 use crate::registry::{DynPart, Gen};
 
-const ME: u8 = 1;
 
 /// other members: id -> address variant (0 or 1: an id may come back with a different address)
 pub type Snapshot = BTreeMap<u8, u8>;
@@ -35,6 +34,9 @@ pub struct Case {
     /// snapshot i+1 is published by a task of its own, spawned right after snapshot i was published, after this many
     /// yields: it lands while the node is still busy with snapshot i
     pub next_by_task: Vec<Option<usize>>,
+    /// the observing node's own id: mostly 1, but also the smallest and the greatest id there is and one in the middle of the
+    /// other members' ids (after the seeded change `C16q`, which only misbehaved on the node whose id is 255)
+    pub me: u8,
 }
 
 pub struct C16;
@@ -72,6 +74,7 @@ impl Prop for C16 {
     }
 
     fn gen(&self, src: &mut Src) -> Case {
+        let me = *src.pick(&[1u8, 1, 1, 0, 255, 4]);
         let n = 1 + src.below(10);
         let mut cur = Snapshot::new();
         let mut snapshots = vec![];
@@ -81,6 +84,7 @@ impl Prop for C16 {
             let changes = if src.chance(1, 6) { 0 } else { 1 + src.below(3) };
             for _ in 0..changes {
                 let id = 2 + src.below(5) as u8;
+                let id = if id == me { 7 } else { id };
                 match src.weighted(&[4, 3, 1]) {
                     0 => {
                         let v = *src.pick(&[0u8, 0, 0, 0, 1, 2, 2, 3]);
@@ -110,7 +114,7 @@ impl Prop for C16 {
         let crowded = src.chance(1, 3);
         let busy: Vec<usize> = (0..n).map(|_| if crowded && src.chance(1, 2) { *src.pick(&[101usize, 99, 100, 130, 160, 250]) } else { 0 }).collect();
         let next_by_task = (0..n).map(|i| if (busy[i] > 0 && src.chance(2, 3)) || src.chance(1, 16) { Some(src.below(4)) } else { None }).collect();
-        Case { snapshots, back_to_back, subscribe_at, drain, read_at_subscribe, seed, busy, next_by_task }
+        Case { snapshots, back_to_back, subscribe_at, drain, read_at_subscribe, seed, busy, next_by_task, me }
     }
 
     fn run(&self, case: &Case) -> Outcome {
@@ -119,6 +123,7 @@ impl Prop for C16 {
 
     fn describe(&self, case: &Case) -> Value {
         json!({
+            "own_node_id": case.me,
             "snapshots_of_other_members(id->address variant)": case.snapshots,
             "published_back_to_back_with_next": case.back_to_back,
             "subscribe_before_snapshot": case.subscribe_at,
@@ -130,7 +135,7 @@ impl Prop for C16 {
     }
 
     fn rule(&self) -> &'static str {
-        "one real DatacakeNode (id 1); 1-10 membership snapshots over ids 2-6 (joins, leaves, rejoins, address \
+        "one real DatacakeNode (id 1, or 0, 255 or 4 in half of the cases); 1-10 membership snapshots over ids 2-6 (7 instead of the node's own) (joins, leaves, rejoins, address \
          changes, addresses of an id's own or from a pool of two that several ids may hold at once or one after the other) published where chitchat would publish them (hook H-members), some back to back so the node's own \
          publisher skips one, some repeating the previous one, some published while 99-250 callers keep the node's selector busy (its request queue holds 100)          and followed at once by the next snapshot from a task of its own (it lands while the node is still working on the previous one); a component subscribes via membership_changes() at a generated moment and reads after a \
          generated subset of the snapshots, always reading once more at the end; it applies each change like the \
@@ -270,13 +275,14 @@ impl<'a> Subscriber<'a> {
 }
 
 async fn run(case: &Case) -> Outcome {
-    let a = addr(ME, 0);
+    let me = case.me;
+    let a = addr(me, 0);
     let cfg = ConnectionConfig::new(a, a, Vec::<String>::new());
-    let node = std::sync::Arc::new(DatacakeNodeBuilder::<DCAwareSelector>::new(ME, cfg).connect().await.expect("connect"));
+    let node = std::sync::Arc::new(DatacakeNodeBuilder::<DCAwareSelector>::new(me, cfg).connect().await.expect("connect"));
     tokio::time::sleep(Duration::from_millis(10)).await;
     let members_of = |snap: &Snapshot| -> Vec<ClusterMember> {
         let mut members: Vec<ClusterMember> = snap.iter().map(|(id, v)| member(*id, *v)).collect();
-        members.push(member(ME, 0));
+        members.push(member(me, 0));
         members
     };
     let mut tasks = vec![];
@@ -437,9 +443,121 @@ async fn run(case: &Case) -> Outcome {
     if leave_or_change {
         labels.push("leave_or_address_change");
     }
+    if case.me != 1 {
+        labels.push(match case.me { 0 => "own_id_0", 255 => "own_id_255", _ => "own_id_between_the_others" });
+    }
     Ok(Pass { nontrivial: leave_or_change, labels })
 }
 
+/// Exhaustive to a length bound (the statement's quantifier): every sequence of 1-4 (thorough: 5) snapshots over two other
+/// members, each absent, on its own address or on an address both may hold; every subscription point; every placement of the
+/// subscriber's reads; reading right after subscribing or not. Words: [n, state x n, subscribe_at, drain bits, read at once].
+pub struct C16Small;
+
+fn small_state(w: u64) -> Snapshot {
+    // base-3 digits: member 2, member 3; 0 = absent, 1 = own address (variant 0), 2 = shared address (variant 2)
+    let mut snap = Snapshot::new();
+    for (i, id) in [2u8, 3].iter().enumerate() {
+        match (w / 3u64.pow(i as u32)) % 3 {
+            0 => {},
+            1 => {
+                snap.insert(*id, 0);
+            },
+            _ => {
+                snap.insert(*id, 2);
+            },
+        }
+    }
+    snap
+}
+
+fn small_space_len(max_n: u64) -> Vec<Vec<u64>> {
+    let mut out = vec![];
+    for n in 1..=max_n {
+        for seq in 0..9u64.pow(n as u32) {
+            for sub in 0..=n {
+                for drain in 0..(1u64 << n) {
+                    for at_once in 0..2u64 {
+                        let mut w = vec![n];
+                        for i in 0..n {
+                            w.push((seq / 9u64.pow(i as u32)) % 9);
+                        }
+                        w.extend([sub, drain, at_once]);
+                        out.push(w);
+                    }
+                }
+            }
+        }
+    }
+    out
+}
+
+pub fn small_space() -> Vec<Vec<u64>> {
+    small_space_len(4)
+}
+
+pub fn small_space_thorough() -> Vec<Vec<u64>> {
+    small_space_len(5)
+}
+
+impl Prop for C16Small {
+    type Case = Case;
+
+    fn id(&self) -> &'static str {
+        "C16"
+    }
+
+    fn part(&self) -> &'static str {
+        "small-scope-sequences"
+    }
+
+    fn width(&self) -> usize {
+        8
+    }
+
+    fn shrink_budget(&self) -> usize {
+        200
+    }
+
+    fn gen(&self, src: &mut Src) -> Case {
+        let n = src.word().clamp(1, 5) as usize;
+        let snapshots: Vec<Snapshot> = (0..n).map(|_| small_state(src.word())).collect();
+        let subscribe_at = (src.word() as usize).min(n);
+        let bits = src.word();
+        let drain = (0..n).map(|i| (bits >> i) & 1 == 1).collect();
+        let read_at_subscribe = src.word() & 1 == 1;
+        Case {
+            snapshots,
+            back_to_back: vec![false; n],
+            subscribe_at,
+            drain,
+            read_at_subscribe,
+            seed: 1,
+            busy: vec![0; n],
+            next_by_task: vec![None; n],
+            me: 1,
+        }
+    }
+
+    fn run(&self, case: &Case) -> Outcome {
+        C16.run(case)
+    }
+
+    fn describe(&self, case: &Case) -> Value {
+        C16.describe(case)
+    }
+
+    fn rule(&self) -> &'static str {
+        "exhaustive to a length bound: every sequence of 1-4 (thorough: 1-5) membership snapshots over two other members, each absent, \
+         on an address of its own or on an address both may hold (joins, leaves, rejoins, address changes, one id replacing the other on \
+         the same address, repeated snapshots), every subscription point, every placement of the subscriber's reads between snapshots, \
+         with and without a read right after subscribing; same oracle as membership-deltas"
+    }
+}
+
 pub fn parts() -> Vec<Box<dyn DynPart>> {
-    vec![Box::new(Gen::new(C16, 200_000, 5_000_000))]
+    vec![
+        Box::new(Gen::new(C16, 200_000, 5_000_000)),
+        Box::new(Gen::listed2(C16Small, small_space, small_space_thorough)),
+    ]
 }
